@@ -139,6 +139,11 @@ func c16Generated(r *Rng, i int, palette []json.RawMessage) c16Def {
 	if r.Chance(50) {
 		actions = append(actions, map[string]any{"uuid": us.next(), "type": "call_webhook", "method": "POST", "url": "http://x.com/?a=" + wh(), "headers": map[string]string{"X": wh()}, "body": wh(), "result_name": "Hook"})
 		feats = append(feats, "webhook")
+		if r.Chance(25) {
+			// before 13.6 nothing limited the result name of any action that saves one
+			actions[len(actions)-1].(map[string]any)["result_name"] = strings.Repeat("Long Hook Result ", 5)
+			feats = append(feats, "over-long-action-result-name")
+		}
 	}
 	long := strings.Repeat("Long Result Name ", 6)
 	resultName := Pick(r, []string{"Color", "Fav Color", long, long[:64], long[:65], strings.Repeat("a-b_c 9", 12), "  spaced  ", strings.Repeat("x", 63) + "  y"})
@@ -389,6 +394,11 @@ func runC16(c *Ctx) {
 				sig := "migrated-does-not-load"
 				if strings.Contains(d.feats, "over-long") {
 					sig += ":over-long-names"
+				}
+				// the result name of an action other than set_run_result (13.6 limits set_run_result names, router result names
+				// and category names only): its own signature, so that any other failure to load is still reported
+				if strings.Contains(d.feats, "over-long-action-result-name") && strings.Contains(loadErr.Error(), "unable to read action: field 'result_name' is not a valid result name") {
+					sig = "migrated-does-not-load:action-result-name-over-64"
 				}
 				c.Fail("monitor", "M-loads", sig, "the migrated definition does not load at the current version", desc)
 			}
